@@ -293,7 +293,7 @@ def compiled_mutable(objdir):
                     or "__odr" in name or "DW.ref" in name:
                 continue
             # strip the argument list of the enclosing function for function-local statics
-            names.add(re.sub(r"\(.*\)::", "()::", name))
+            names.add(re.sub(r"\[abi:[^\]]*\]", "", re.sub(r"\(.*\)::", "()::", name)))
     return sorted(names)
 
 
